@@ -15,11 +15,35 @@ def cfg_name(c):
                                            (",am%d" % c["amode"]) if "amode" in c else "")
 
 
+PAD_COUNTS = [61, 62, 63, 64, 125, 126, 127, 128, 190, 31, 32]
+
+
+def pad_terminals(g, cid):
+    """Every third case declares 31-190 extra terminals that no rule and no input uses, in front of, between or
+    behind the real ones: the library's terminal sets (FIRST, FOLLOW, lookahead contexts) then span several
+    machine words and the real terminals -- and `error' -- sit at different bit positions, next to word
+    boundaries.  Nothing observable may change."""
+    if cid % 3 != 0:
+        return g
+    k = PAD_COUNTS[(cid // 3) % len(PAD_COUNTS)]
+    mode = (cid // 3) % 3
+    pads = [("zz%d" % i, 100000 + i) for i in range(k)]
+    if mode == 0:
+        terms = pads + list(g.terms)
+    elif mode == 1:
+        terms = list(g.terms) + pads
+    else:
+        h = len(g.terms) // 2
+        terms = list(g.terms[:h]) + pads + list(g.terms[h:])
+    from .gram import Grammar
+    return Grammar(terms, g.rules)
+
+
 def emit_case(cid, g, strict, w, configs, h2=False):
     code = g.code_of()
     toks = [code[t] for t in w]
     lines = ["C %d" % cid]
-    gl = emit_define(g, 0, strict)
+    gl = emit_define(pad_terminals(g, cid), 0, strict)
     tid = 0
     for i, c in enumerate(configs):
         lines.append("new 0")
@@ -100,7 +124,7 @@ class CaseInfo:
 
     def replay(self, ci=None, extra=None):
         o = {"grammar": self.g.to_json(), "grammar_text": repr(self.g), "strict": self.strict, "input": self.w,
-             "gname": self.gname}
+             "gname": self.gname, "cid": self.cid}
         if ci is not None:
             o["config"] = self.configs[ci]
         if extra:
@@ -170,7 +194,7 @@ def merge(ck, results, key_fn=None):
     return counters
 
 
-def grammar_stream(rng, n, families=("pool", "random", "mutant", "random", "ctx", "items"), error_p=0.0, strict=None, **kw):
+def grammar_stream(rng, n, families=("pool", "random", "mutant", "random", "ctx", "items", "chain"), error_p=0.0, strict=None, **kw):
     """Yield (name, g, strict) accepted grammars."""
     pool = gen.pool()
     out = []
@@ -191,15 +215,15 @@ def grammar_stream(rng, n, families=("pool", "random", "mutant", "random", "ctx"
         elif fam == "random":
             g, s = gen.accepted_random_grammar(rng, strict=strict, error_p=error_p, **kw)
             out.append(("random", g, s))
-        elif fam in ("ctx", "items", "overlap"):
-            g = (gen.context_chain_grammar(rng) if fam == "ctx" else gen.item_list_grammar(rng) if fam == "items"
-                 else gen.overlap_grammar(rng))
+        elif fam in ("ctx", "items", "overlap", "chain"):
+            g = {"ctx": gen.context_chain_grammar, "items": gen.item_list_grammar, "overlap": gen.overlap_grammar,
+                 "chain": gen.tail_chain_grammar}[fam](rng)
             s = 1 if not oracle.wf(g, 1) else 0
             if strict is not None and s != strict:
                 continue
             if oracle.wf(g, s):
                 continue
-            out.append(({"ctx": "context_chain", "items": "item_list", "overlap": "overlap"}[fam], g, s))
+            out.append(({"ctx": "context_chain", "items": "item_list", "overlap": "overlap", "chain": "tail_chain"}[fam], g, s))
         else:
             name, g = pool[rng.randrange(len(pool))]
             for _ in range(rng.randrange(1, 4)):
